@@ -98,9 +98,12 @@ RunResult run_w5(const Plan& pl) {
                 { double Ld = (g.bmax - g.bmin).norm(); if (g.volume < -1e-6 * Ld * Ld * Ld) { std::ostringstream d; d << "cell " << k << " handed to the solver is inside-out (signed volume " << g.volume << ", diameter " << Ld << ")"; res.fail("C13", "handed_over_inside_out", d.str()); break; } if (!(g.volume > 1e-6 * Ld * Ld * Ld)) res.probes.hit("flat_cell_handed_over_coarse"); }   // a (near) zero volume sheet is judged by the volume clause where fidelity applies (l_min <= size/4) CellView rv; rv.pos = ref[k].V; rv.nused.assign(ref[k].V.size(), 1); rv.tri = ref[k].F; rv.fused.assign(ref[k].F.size(), 1);
                 Geo gi = geometry(rv); double relv = std::fabs(g.volume - vol[k]) / vol[k];
                 { uint64_t ppm = (uint64_t)(relv * 1e6); auto& q = res.probes.c["vol_err_ppm_max"]; q = std::max(q, ppm); }
-                if (tri_on && rho > 0.25 + 1e-9) res.probes.hit("fidelity_not_judged_coarse");
-                if (tri_on && rho <= 0.25 + 1e-9) {   // fidelity is judged where the mesh resolves the cell (l_min <= size/4)
-                    double tol_v = 0.02 + 6 * rho * rho;     // calibrated on the unchanged tree: max observed error ~4.1 rho^2 over ~200 reconstructions
+                if (tri_on && rho > 0.25 + 1e-9) res.probes.hit("fidelity_coarse_volume_only");
+                // the volume clause holds at every ratio offered (observed error <= 4.2 rho^2 over ~350 reconstructions with rho 0.08..0.35, tolerance 0.02 + 6 rho^2 < 1);
+                // bounding box and node-to-surface distance are judged where the mesh resolves the cell (l_min <= size/4)
+                double tol_v = 0.02 + 6 * rho * rho;
+                if (tri_on && rho > 0.25 + 1e-9 && tol_v < 0.9 && relv > tol_v) { std::ostringstream d; d << "cell " << k << ": reconstructed volume " << g.volume << " vs input " << vol[k] << " (relative " << relv << " > " << tol_v << " at l_min/size " << rho << ")"; res.fail("C13", "volume", d.str()); break; }
+                if (tri_on && rho <= 0.25 + 1e-9) {
                     if (relv > tol_v) { std::ostringstream d; d << "cell " << k << ": reconstructed volume " << g.volume << " vs input " << vol[k] << " (relative " << relv << " > " << tol_v << " at l_min/size " << rho << ")"; res.fail("C13", "volume", d.str()); }
                     double lmax = 3 * lmin; for (int q = 0; q < 3; q++) if (g.bmin[q] < gi.bmin[q] - lmax || g.bmax[q] > gi.bmax[q] + lmax || g.bmin[q] > gi.bmin[q] + 2 * lmax || g.bmax[q] < gi.bmax[q] - 2 * lmax) { res.fail("C13", "bounding_box", "bounding box of the reconstructed cell is off the input's by more than l_max outward / 2 l_max inward"); break; }
                     std::vector<std::vector<unsigned>> nb(v.pos.size()); for (size_t f = 0; f < v.tri.size(); f++) if (v.fused[f]) for (int q = 0; q < 3; q++) { nb[v.tri[f][q]].push_back(v.tri[f][(q + 1) % 3]); nb[v.tri[f][q]].push_back(v.tri[f][(q + 2) % 3]); }
